@@ -130,8 +130,10 @@ def rule_S1(ctx):
         raise AnalysisError("S1", where(loop), "no back-edge path found in the chain walk")
     if isinstance(loop, ast.For):
         it = loop.iter
+        # every path on which the range runs out (the for statement is left through its exhausted edge) ends in a raise
+        exhausted = [p_ for p_ in run_paths(ctx, fn, rule="S1", limit=4000) if any(s_.kind == "for" and s_.ast is loop and s_.label == "false" for s_ in p_.steps)]
         okb = isinstance(it, ast.Call) and norm(it.func) == "range" and len(it.args) == 1 and norm(it.args[0]) == "self.size" \
-            and bool(loop.orelse) and any(isinstance(n, ast.Raise) for st in loop.orelse for n in ast.walk(st))
+            and bool(exhausted) and all(p_.end == "raise" and (p_.raised or "").endswith("InvalidFatDefinition") for p_ in exhausted)
         ctx.ob("S1", loop, "the walk is bounded by the table size and running out of steps is reported as a broken table", okb, "", inst="for-bound")
 
 
